@@ -18,4 +18,19 @@ def rangeLen (a b w : Nat) : Nat := (b - a + w - 1) / w
 def range? (a b w : Nat) : Option (List Nat) :=
   if w = 0 then none else some ((List.range (rangeLen a b w)).map (fun t => a + t * w))
 
+/-- `a, b = xs` : `none` = ValueError (wrong number of values to unpack). -/
+def unpack2? {α : Type} : List α → Option (α × α)
+  | [a, b] => some (a, b)
+  | _ => none
+
+/-- `a, b, c = xs` -/
+def unpack3? {α : Type} : List α → Option (α × α × α)
+  | [a, b, c] => some (a, b, c)
+  | _ => none
+
+/-- `a, b, c, d = xs` -/
+def unpack4? {α : Type} : List α → Option (α × α × α × α)
+  | [a, b, c, d] => some (a, b, c, d)
+  | _ => none
+
 end TonVerif.Py
